@@ -93,8 +93,8 @@ func c07SlashOracle(x *engine.Exec, ref *pendRef) []engine.Failure {
 		d, dst int
 		den    string
 	}
-	cuts := map[grp]*big.Rat{}      // property: f * amount redelegated from v
-	recTotal := map[grp]*big.Rat{}  // what the merged primary record(s) hold for the same keys (all sources)
+	cuts := map[grp]*big.Rat{}     // property: f * amount redelegated from v
+	recTotal := map[grp]*big.Rat{} // what the merged primary record(s) hold for the same keys (all sources)
 	merged := map[grp]bool{}
 	for _, r := range ref.pendingRedsFrom(v, prev.Time) {
 		k := grp{r.D, r.Dst, r.Denom}
